@@ -27,7 +27,7 @@ Proof. intros x y H. rewrite <- (hb_of_N_of_hb x), H. apply hb_of_N_of_hb. Qed.
 
 (* ---------- the Boolean ring of nibbles and of bytes ---------- *)
 
-Lemma hex_ring : ring_theory X0 XF hex_xor hex_and hex_xor (fun x => x) (@eq hex).
+Lemma hex_ring : ring_theory X0 XF hex_xor hex_and hex_xor (fun x => x) (@eq nibble).
 Proof.
   constructor.
   - intros []; reflexivity.
@@ -74,8 +74,8 @@ Proof. intros. ring. Qed.
 
 (* ---------- xtime and the gmul's are additive ---------- *)
 
-Definition all_hex : list hex := [X0; X1; X2; X3; X4; X5; X6; X7; X8; X9; XA; XB; XC; XD; XE; XF].
-Lemma all_hex_in : forall h, In h all_hex.
+Definition all_nibbles : list nibble := [X0; X1; X2; X3; X4; X5; X6; X7; X8; X9; XA; XB; XC; XD; XE; XF].
+Lemma all_hex_in : forall h, In h all_nibbles.
 Proof. intros []; simpl; auto 20. Qed.
 
 Definition hb_eqb (x y : hb) : bool := N.eqb (N_of_hb x) (N_of_hb y).
@@ -85,7 +85,7 @@ Proof. intros x y H. apply N_of_hb_inj, N.eqb_eq, H. Qed.
 Lemma xtime_lin_check :
   forallb (fun a1 => forallb (fun a2 => forallb (fun b1 => forallb (fun b2 =>
     hb_eqb (xtime (hb_xor (a1, a2) (b1, b2))) (hb_xor (xtime (a1, a2)) (xtime (b1, b2))))
-    all_hex) all_hex) all_hex) all_hex = true.
+    all_nibbles) all_nibbles) all_nibbles) all_nibbles = true.
 Proof. vm_compute. reflexivity. Qed.
 
 Definition additive (f : hb -> hb) : Prop := forall a b, f (hb_xor a b) = hb_xor (f a) (f b).
